@@ -352,6 +352,26 @@ def run(pid, tier, seed, replay=None):
         except Broken as b:
             broken.append(b)
         timings["correspond"] = time.time() - t0
+    elif fatal.obligation.startswith("harness.build") and not replay:
+        # the shared harness does not build (e.g. a synthetic definition is no longer accepted): the parts of
+        # the check that do not need it still look for a failing input — generated programs compiled on
+        # their own, and the macro's code run as a library against the model of the macro
+        t0 = time.time()
+        try:
+            if hasattr(prop, "extra") and not getattr(prop, "EXTRA_NEEDS_HARNESS", False):
+                extra_cov, extra_fail, extra_broken = prop.extra(tier, seed)
+                broken += extra_broken
+            if getattr(prop, "MACRO_PARTS", None):
+                import macrofront
+                mcov, mfail, mbroken = macrofront.for_property(prop.MACRO_PARTS, tier, seed)
+                extra_cov = dict(extra_cov, **mcov)
+                extra_cov["evaluations"] = extra_cov.get("evaluations", 0) + mcov["macro_level_definitions"]
+                extra_cov["distinct_nontrivial"] = extra_cov.get("distinct_nontrivial", 0) + mcov["macro_level_definitions"]
+                extra_fail = list(extra_fail) + mfail
+                broken += mbroken
+        except Broken as b:
+            broken.append(b)
+        timings["correspond"] = time.time() - t0
     # pieces of the source the translator could not read: tied by the exhaustive dump, or broken
     fb = fallback_pieces(pid)
     if fb and fatal is None:
